@@ -219,11 +219,24 @@ def run_check(prop, tier, seed, replay=None):
     leanchecker = None
     if ok and tier == "thorough" and not replay:
         import subprocess
-        lc = subprocess.run(["lake", "env", "leanchecker", mod], cwd=C.LEAN, capture_output=True, text=True)
-        leanchecker = {"rc": lc.returncode, "output": (lc.stdout + lc.stderr)[-500:]}
-        if lc.returncode != 0:
+        # the property module and every lemma / spec / model module of the project, in parallel
+        mods = [mod]
+        for sub in ("Lemmas", "Spec", "Std", "V1", "V2"):
+            d = os.path.join(C.LEAN, "PppModel", sub)
+            mods += ["PppModel.%s.%s" % (sub, f[:-5]) for f in sorted(os.listdir(d)) if f.endswith(".lean")]
+        mods += ["PppModel.Basic", "PppModel.Auto"]
+        from concurrent.futures import ThreadPoolExecutor
+
+        def _lc(m):
+            r = subprocess.run(["lake", "env", "leanchecker", m], cwd=C.LEAN, capture_output=True, text=True)
+            return m, r.returncode, (r.stdout + r.stderr)[-300:]
+        with ThreadPoolExecutor(max_workers=min(12, C.NCPU)) as ex:
+            res = list(ex.map(_lc, mods))
+        bad = [(m, rc, o) for m, rc, o in res if rc != 0]
+        leanchecker = {"modules": len(mods), "rejected": bad}
+        if bad:
             proof_ok = False
-            proof_problem = proof_problem or ("leanchecker rejected %s: %s" % (mod, leanchecker["output"]))
+            proof_problem = proof_problem or ("leanchecker rejected %r" % (bad[:3],))
     obligations = len(names)
     discharged = len([n for n in names if audit.get(n) is not None and set(audit[n]) <= C.ALLOWED_AXIOMS]) if ok else 0
 
